@@ -38,6 +38,7 @@ type ctxFile struct {
 	tokEnd   map[int]bool
 	exact    map[[2]int]bool // (start, stop) offsets of single tokens
 	line     string
+	short    string // case line without the tree (enough for -replay)
 	o        *vh.Out
 	seen     map[string]bool // oracle keys already reported for this file
 }
@@ -47,7 +48,7 @@ func (c *ctxFile) fail(key, detail string) {
 		return
 	}
 	c.seen[key] = true
-	c.o.Oracle(key, c.line, detail)
+	c.o.Oracle(key, c.short, detail)
 }
 
 func (c *ctxFile) src(pos, end token.Pos) string {
@@ -122,6 +123,12 @@ func shape(n ast.Node, b *strings.Builder, depth int) {
 	cs, _ := astx.Children(n)
 	b.WriteString("(")
 	for _, c := range cs {
+		if !astx.IsNil(c.Node) && isComment(c.Node) {
+			continue // comments are not part of the expression (ParseExpr drops them)
+		}
+		if c.Slot == "Doc" || c.Slot == "Comment" {
+			continue
+		}
 		b.WriteString(c.Slot + ":")
 		shape(c.Node, b, depth+1)
 		b.WriteString(" ")
@@ -133,7 +140,7 @@ func shape(n ast.Node, b *strings.Builder, depth int) {
 // occurrence re-parses).  Not listed: KeyValueExpr, Ellipsis, ElemEllipsis, ForPhrase, RangeExpr,
 // LambdaExpr*, FuncType/StructType/... in non-expression positions, command-style CallExpr.
 var reparseKinds = map[string]bool{
-	"Ident": true, "BasicLit": true, "NumberUnitLit": true, "EnvExpr": true, "SliceLit": true, "MatrixLit": true,
+	"Ident": true, "BasicLit": true, "NumberUnitLit": true, "EnvExpr": true, "SliceLit": true,
 	"ErrWrapExpr": true, "ComprehensionExpr": true, "DomainTextLit": true, "CompositeLit": true, "ParenExpr": true,
 	"SelectorExpr": true, "IndexExpr": true, "SliceExpr": true, "TypeAssertExpr": true, "StarExpr": true,
 	"UnaryExpr": true, "BinaryExpr": true, "FuncLit": true, "CallExpr": true,
@@ -150,6 +157,9 @@ func (c *ctxFile) reparse(n ast.Node, stats bool) {
 	text := c.src(n.Pos(), n.End())
 	if text == "" {
 		return
+	}
+	if id, ok := n.(*ast.Ident); ok && !token.IsIdentifier(id.Name) {
+		return // operator name of an overload declaration (`func (a T) + (b T)`)
 	}
 	var e2 ast.Expr
 	var err error
@@ -206,17 +216,34 @@ func (c *ctxFile) check(n ast.Node, synthetic, inLit bool, depth int) {
 	if _, ok := n.(*ast.Package); ok {
 		synthetic = true
 	}
+	if fd, ok := n.(*ast.FuncDecl); ok && fd.Shadow {
+		synthetic = true // the entry function synthesised around the top-level statements
+	}
 	file, isFile := n.(*ast.File)
+	if !pos.IsValid() && !end.IsValid() && !synthetic {
+		// a node without any token (the empty receiver list of a static method `func .New()`)
+		if es, ok, _ := astx.LayoutElems(n); kind == "FieldList" || (ok && len(es) == 0) {
+			c.o.Count("node_without_tokens")
+			synthetic = true
+		}
+	}
 	if !synthetic && !inLit {
 		// (a) token boundaries
 		skipPos := isFile && file.NoPkgDecl // the implicit package name sits at offset 0
 		if !skipPos && !c.tokStart[po] {
 			c.fail("tokstart:"+kind, c.where(n)+": Pos is not the start of a token")
 		}
-		if pos != end || !skipPos {
-			if pos != end && !c.tokEnd[eo] {
-				c.fail("tokend:"+kind, c.where(n)+": End is not the end of a token")
+		shadowPlusOne := false
+		if isFile && file.ShadowEntry != nil && file.ShadowEntry.Shadow && file.ShadowEntry.Body != nil {
+			// the brace-less body of the shadow entry records Rbrace = End of the last statement,
+			// and BlockStmt.End() adds 1 for a brace that is not there
+			if l := file.ShadowEntry.Body.List; len(l) > 0 && end == l[len(l)-1].End()+1 {
+				shadowPlusOne = true
+				c.fail("file-end-shadow-plus-one", fmt.Sprintf("File.End()=%d is one past the End (%d) of the last top-level statement", eo, eo-1))
 			}
+		}
+		if pos != end && !c.tokEnd[eo] && !shadowPlusOne {
+			c.fail("tokend:"+kind, c.where(n)+": End is not the end of a token")
 		}
 		if end < pos {
 			c.fail("negative-span:"+kind, c.where(n))
@@ -269,19 +296,22 @@ func (c *ctxFile) check(n ast.Node, synthetic, inLit bool, depth int) {
 	for _, ch := range astx.SpecChildren(n) {
 		cn := ch.Node
 		childSynthetic := synthetic
-		if isFuncDecl && fd.Shadow { // the statements of the shadow entry are real
-			childSynthetic = ch.Slot != "Body"
+		if isFuncDecl && fd.Shadow { // Name, Type and the brace-less Body block are synthetic too
+			childSynthetic = true
 		}
 		if _, isBlock := n.(*ast.BlockStmt); isBlock && synthetic {
 			childSynthetic = false
 		}
 		childInLit := inLit || strings.HasPrefix(ch.Slot, "Extra_")
 		if !isComment(cn) && !synthetic && kind != "Package" {
-			if cn.Pos() < pos || cn.End() > end {
+			if (cn.Pos().IsValid() || cn.End().IsValid()) && (cn.Pos() < pos || cn.End() > end) {
 				c.fail("outside:"+kind+"."+ch.Slot, fmt.Sprintf("child %s lies outside its parent %s", c.where(cn), c.where(n)))
 			}
 			skipOrder := isFuncDecl && ch.Slot == "Type" // FuncType spans from `func` to the results, around Recv and Name
 			if !skipOrder {
+				if !cn.Pos().IsValid() && !cn.End().IsValid() {
+					continue // a child without tokens takes no part in the order
+				}
 				if prev != nil && cn.Pos() < prev.End() {
 					c.fail("overlap:"+kind+"."+prevSlot+"/"+ch.Slot, fmt.Sprintf("in %s: %s starts before %s ends", c.where(n), c.where(cn), c.where(prev)))
 				}
@@ -304,6 +334,7 @@ func runParsed(recipe string, p *astx.Parsed, o *vh.Out) {
 	d := astx.NewDumper()
 	tree, order := d.DumpSpans("root", p.File)
 	c.line = "span\t" + recipe + "\t" + tree
+	c.short = "span\t" + recipe
 	parts := make([]string, len(order))
 	for i, n := range order {
 		parts[i] = strconv.Itoa(d.ID(n)) + ":" + safe(n.Pos) + ":" + safe(n.End)
